@@ -152,3 +152,34 @@ register('C20', 'exploration',
          'everywhere; an audit hook records file/socket/process events on the compile/run path. ' + HELD,
          'Section 5 (gzip+pickle) is excluded as the property states; clock independence is tested with patched time/datetime.',
          'runtime differential monitoring across processes, hash seeds, clocks and compilation histories', 'DESIGN.md §4 C20')
+
+# additions of session 3 (DESIGN §10), appended to the descriptions above
+ADDENDA = {
+    'C01': 'Also: parentheses that operator precedence makes redundant are dropped in the rendered text (the IR tree stays the oracle); '
+           'flat precedence programs over every ordered pair of binary operators; unit programs with literal operands; keyword-prefixed '
+           'identifiers in every statement position; locals of different routines share their names in half of the programs.',
+    'C02': 'Also: static array bounds from the listing against LBOUND/UBOUND at run time over fractional constant bounds; builtin calls '
+           'with constant arguments and cp437 strings in the grid; degenerate control-flow shapes with and without -g.',
+    'C03': 'Also: near-miss argument-passing programs (run whenever the compiler accepts them) and the degenerate control-flow shapes at '
+           'all six configurations.',
+    'C05': 'Also: faulty expressions embedded in larger expressions/statements, rank errors on arrays with run-time bounds, and the '
+           'near-miss by-reference argument family (388 programs, the well-typed ones are controls).',
+    'C06': 'Also: namespace family (one base name declared as one kind of thing and used as another, 25 608 texts), numeric literal x '
+           'context sweep at all six configurations, non-cp437 and control characters.',
+    'C07': 'Also: extreme-argument family - every run-time library entry x boundary numbers and absurd strings, under a RESUME NEXT '
+           'handler and bare.',
+    'C08': 'Also: handlers that never resume, special characters inside literals/DATA, degenerate control-flow shapes.',
+    'C09': 'Also: global operands are resolved through the .globals order and the size model (STATIC names per routine).',
+    'C10': 'Also: directed programs (line 0 + ON ERROR GOTO 0, RESUME NEXT inside single-line IFs, errors inside GOSUB routines).',
+    'C11': 'Also: degenerate control-flow shapes including bodies of no-code statements; characters other line splitters take for line ends.',
+    'C12': 'Also: a third of the histories each with the status display off / source context / instruction context, informational commands, '
+           'routine and address breakpoints, and a step-coverage oracle over every tagged statement.',
+    'C13': 'Also: unit programs over every operator x operand-type pair with value pairs that differ between operand types.',
+    'C14': 'Also: statement-level rewrites on plain text (split, join, LET) for tour, repository and shape programs.',
+    'C15': 'Also: RESTORE to a procedure-local label, line number 0.',
+    'C16': 'Also: constant forms (VAL of a literal text, STR$/PRINT of literals) at O0/O2/O1-g and re-reading after an integer READ.',
+    'C19': 'Also: every statement preceded by a failing one with the same format in a sixth of the batches.',
+    'C20': 'Also: families of programs that use the same names in different roles.',
+}
+for _pid, _add in ADDENDA.items():
+    CHECKS[_pid]['text'] = CHECKS[_pid]['text'].replace(HELD, _add + ' ' + HELD)
